@@ -176,7 +176,7 @@ class Report:
         wall = time.time() - self.t0
         cov = {
             "obligations": self.obligations, "discharged": self.discharged,
-            "checker_cmd": "cd /verif/lean && lake build GlyModel GlyProofs driver && lake env lean GlyProofs/Audit.lean (axiom audit)",
+            "checker_cmd": "cd /verif && ./check %s %s   (= tools/extract.py; cd lean && lake build GlyModel driver GlyProofs.Props.%s; lake env lean ../build/Audit_%s.lean [#print axioms of every theorem, allowed: propext, Classical.choice, Quot.sound]; grep for sorry/admit/axiom/native_decide/bv_decide/implemented_by/unsafe; thorough: lake env leanchecker GlyProofs.Props.%s)" % (self.prop, self.tier, self.prop, self.prop, self.prop),
             "trusted_base": TRUSTED_BASE,
             "theorems": self.theorems,
             "evaluations": self.evaluations, "distinct_nontrivial": len(self.nontrivial),
